@@ -40,18 +40,9 @@ Definition tgt_NarrowShift : design := [
      m_items := [
       IInitial SSkip;
       IAlways (EvPos "clk") (SNba (LId "o") (EBin BShr (EBin BAdd (EId "a") (EId "b")) (ENum 1)))] |}].
-(* <C02-boolop-value> *)
-Definition src_OrValue : pyblock :=
-  {| b_kind := KClock; b_ins := [("a", 4); ("b", 4)]; b_outs := [("o", 4)]; b_attrs := [("x", 0)];
-   b_body := (PSSeq (PSAttr "x" (PBool POr (PGet "a") (PGet "b"))) (PSPrepare "o" (PAttr "x"))) |}.
-Definition tgt_OrValue : design := [
-  {| m_name := "OrValue"; m_params := []; m_ports := [{| p_dir := DIn; p_reg := false; p_width := 1; p_name := "clk" |}; {| p_dir := DIn; p_reg := false; p_width := 4; p_name := "a" |}; {| p_dir := DIn; p_reg := false; p_width := 4; p_name := "b" |}; {| p_dir := DOut; p_reg := true; p_width := 4; p_name := "o" |}];
-     m_items := [
-      IInteger "x";
-      IInitial (SBlk (LId "x") (ENum 0));
-      IAlways (EvPos "clk") (SSeq (SBlk (LId "x") (EBin BLOr (EId "a") (EId "b"))) (SNba (LId "o") (EId "x")))] |}].
-(* </C02-boolop-value> *)
-(* <C02-portname> *)
+(* C02-boolop-value: repaired in /repo, switched by fixes/C02_switch.py *)
+(* `x = a or b` as a value is refused by the transpiler now (TranspilationException): there is no target term any more *)
+(* C02-portname: repaired in /repo, switched by fixes/C02_switch.py *)
 Definition src_PortName : pyblock :=
   {| b_kind := KClock; b_ins := [("a", 4); ("b", 4)]; b_outs := [("res", 5)]; b_attrs := [];
    b_body := (PSPrepare "res" (PBin PAdd (PGet "a") (PGet "b"))) |}.
@@ -59,9 +50,8 @@ Definition tgt_PortName : design := [
   {| m_name := "PortName"; m_params := []; m_ports := [{| p_dir := DIn; p_reg := false; p_width := 1; p_name := "clk" |}; {| p_dir := DIn; p_reg := false; p_width := 4; p_name := "a" |}; {| p_dir := DIn; p_reg := false; p_width := 4; p_name := "b" |}; {| p_dir := DOut; p_reg := true; p_width := 5; p_name := "res" |}];
      m_items := [
       IInitial SSkip;
-      IAlways (EvPos "clk") (SNba (LId "result") (EBin BAdd (EId "a") (EId "b")))] |}].
-(* </C02-portname> *)
-(* <C02-cmp-rhs> *)
+      IAlways (EvPos "clk") (SNba (LId "res") (EBin BAdd (EId "a") (EId "b")))] |}].
+(* C02-cmp-rhs: repaired in /repo, switched by fixes/C02_switch.py *)
 Definition src_CmpRhs : pyblock :=
   {| b_kind := KClock; b_ins := [("a", 4); ("b", 1)]; b_outs := [("o", 1)]; b_attrs := [];
    b_body := (PSIf (PCmp PEq (PConst 5) (PBin PBitAnd (PGet "a") (PConst 7))) (PSPrepare "o" (PConst 1)) (PSPrepare "o" (PConst 0))) |}.
@@ -69,8 +59,7 @@ Definition tgt_CmpRhs : design := [
   {| m_name := "CmpRhs"; m_params := []; m_ports := [{| p_dir := DIn; p_reg := false; p_width := 1; p_name := "clk" |}; {| p_dir := DIn; p_reg := false; p_width := 4; p_name := "a" |}; {| p_dir := DIn; p_reg := false; p_width := 1; p_name := "b" |}; {| p_dir := DOut; p_reg := true; p_width := 1; p_name := "o" |}];
      m_items := [
       IInitial SSkip;
-      IAlways (EvPos "clk") (SIf (EBin BAnd (EBin BEq (ENum 5) (EId "a")) (ENum 7)) (SNba (LId "o") (ENum 1)) (SNba (LId "o") (ENum 0)))] |}].
-(* </C02-cmp-rhs> *)
+      IAlways (EvPos "clk") (SIf (EBin BEq (ENum 5) (EBin BAnd (EId "a") (ENum 7))) (SNba (LId "o") (ENum 1)) (SNba (LId "o") (ENum 0)))] |}].
 
 
 (* in-subset blocks of py/props/c02_cases.py (validated: used as non-vacuity examples of the soundness theorems) *)
